@@ -3,7 +3,7 @@ from checks import pfcp_common as pc
 
 MANIFEST = dict(
     text='Kernel-checked: emit (the one emission routine behind all three carriers) numbers the IEs of each URR consecutively from the stored counter, without gap or repeat (mod 2^32), leaves the counter at start + number emitted, does not touch URRs without a report (independence), drops a removed URR after its first IE; Create URR starts at 0; no other per-session operation changes a counter (for any category order); the session stored after each carrier is the first component of the very emission whose second component was sent, so counters chain across messages; counters stay < 2^32 in every reachable state. A Create URR naming an id the session still holds keeps the running counter, and leaves the bookkeeping untouched when the data plane rejects the duplicate (C11_create_urr_held_keeps_counter, C11_create_urr_duplicate_rejected_unchanged; the former finding create-urr-existing-id is fixed and its history is a regression case). Tie: differential run + an independent per-(session, URR) counter monitor.',
-    note='Reports that arrive for a URR after its removal produced no final report (its entry lingers, marked removed) may continue or restart the numbering: the property does not say, the monitor accepts both. ',
+    note='The code that advances a counter (Sess.URRSeq: post-increment of a uint32) and every other write to a SEQN field are read from the source on every run (C11_counter_source_shape); counters far from 0 (around 2^8, 2^16, 2^24, 2^31, just below 2^32) are reached by positioning them through a harness hook, not by emitting 2^24 reports. An entry of a removed URR lingers only when the data plane refused the removal. ',
     technique="Coq lemmas on the emission / queue / reference-count functions + differential run + trace monitor",
     design='4/C11')
 
@@ -12,6 +12,58 @@ GEN = dict(usage_share=0.7, weights=dict(usa=24, mod=26, est=14, dele=8, asr=4, 
 N_QUICK, N_THOROUGH = 110, 3000
 
 
+def counter_cases(ctx):
+    """histories whose UR-SEQN counters are positioned far from 0 (harness event setseq): around 2^8, 2^16, 2^24, 2^31 and
+    just below 2^32, then threaded through all three carriers"""
+    import random
+    rnd = random.Random(ctx.seed + 1111)
+    starts = [255, 65535, 2 ** 24 - 2, 2 ** 24 - 1, 2 ** 31 - 1, 2 ** 32 - 12]
+    if ctx.tier == "thorough":
+        starts += [rnd.randrange(2 ** 32 - 16) for _ in range(40)] + [2 ** k - 1 for k in range(9, 32)]
+    out = []
+    for v in starts:
+        evs = [pc._rc(0, 1, {"k": "asr", "nid": {"v": 0}}),
+               pc._rc(0, 2, {"k": "est", "nid": {"v": 0}, "fseid": {"v": 10},
+                             "ops": {"cURR": [{"id": 1, "method": 2, "info": 0}, {"id": 2, "method": 2, "info": 0}]}}),
+               {"t": "setseq", "seid": 1, "urr": 1, "v": v, "fail": [], "usage": []}]
+        for k in range(rnd.choice([2, 3, 4])):
+            evs.append(pc._usa(1, 1, 100 + k))
+            if k == 0:
+                evs.append(pc._usa(1, 2, 7))
+        q = {"op": "query", "id": 1, "rpts": [{"urr": 1, "trig": 0, "vflags": 0, "cnt": [k_, 0, 0, 0, 0, 0], "dur": 0, "start": 1, "end": 2} for k_ in (1, 2)]}
+        evs.append(pc._rc(0, 3, {"k": "mod", "seid": 1, "nid": {"absent": True}, "ops": {"qURR": [1]}}, usage=[q]))
+        evs.append(pc._usa(1, 1, 200))
+        fin = {"op": "remove", "id": 1, "rpts": [{"urr": 1, "trig": 0, "vflags": 0, "cnt": [9, 0, 0, 0, 0, 0], "dur": 0, "start": 1, "end": 2}]}
+        evs.append(pc._rc(0, 4, {"k": "del", "seid": 1}, usage=[fin]))
+        out.append({"maxretrans": 0, "txseq0": 0, "events": evs})
+    return out
+
+
+def counter_phase(ctx, info, coverage):
+    """UR-SEQN far from 0: the counters are positioned by the harness, the independent counter monitor follows"""
+    from lib import common
+    cases = counter_cases(ctx)
+    res, log = common.run_harness(ctx, info["harness"], "pfcp", cases, timeout=600, tag="-ctr")
+    if res is None:
+        ctx.violation({"property": "C11", "broken": "counter phase: harness run failed", "log": log[-1500:]}, no_input=True)
+        return
+    seen, n = 0, 0
+    for c, o in zip(cases, res["cases"]):
+        bad = pc.mon_c11(c, o, res["prefix"])
+        for x in o:
+            for sd in x.get("sends") or []:
+                for ie in sd.get("urs") or []:
+                    n += 1
+                    seen = max(seen, ie.get("seqn", 0))
+        if bad and n >= 0:
+            ctx.violation({"property": "C11", "what": "counter positioned at %d: %s" % (c["events"][2]["v"], bad[0][1]), "mode": "counter",
+                           "case": c, "event_index": bad[0][0], "implementation_trace": [x.get("sends") for x in o]})
+            break
+    coverage["counter_phase"] = {"histories": len(cases), "usage_report_ies": n, "largest_ur_seqn_seen": seen,
+                                 "starts": [c["events"][2]["v"] for c in cases][:12]}
+    coverage["evaluations"] = coverage.get("evaluations", 0) + len(cases)
+
+
 def run(ctx, replay=None):
     return pc.run_property(ctx, "C11", pc.mon_c11, GEN, N_QUICK, N_THOROUGH, replay=replay, rule=RULE,
-                           assumptions=[pc.PFCP_NOTE], finding_sig=pc.sig_c11, directed=pc.directed_c11)
+                           assumptions=[pc.PFCP_NOTE], finding_sig=pc.sig_c11, directed=lambda rnd: pc.directed_c11(rnd) + pc.directed_c11b(rnd), extra_phase=counter_phase)
